@@ -27,7 +27,7 @@ rsync -a "$VERIF/sim/" "$G/verifsim/" || exit 2
 # extra module requirements of the simulator
 cat "$VERIF/sim/go.sum.extra" >> "$G/go.sum" 2>/dev/null
 (cd "$G" && go mod edit -require=github.com/anishathalye/porcupine@v1.3.0) || exit 2
-FLAGS=(-tags verif -cover)
+FLAGS=(-tags verif -cover -covermode=atomic)
 [ -n "$RACE" ] && FLAGS+=(-race)
 (cd "$G" && go build "${FLAGS[@]}" -o "$OUT.tmp" "./verifsim/worlds/$WORLD") 1>&2 || { echo "build.sh: go build failed" >&2; exit 2; }
 mv "$OUT.tmp" "$OUT"
